@@ -23,6 +23,11 @@ type C19Scenario struct {
 	WriteSize int         `json:"write_size"`
 	PatKey   uint64       `json:"pat_key"`
 	ZeroLatency bool      `json:"zero_latency"`
+	// CloseAtMS > 0: at that virtual time the first session is closed by
+	// CloseSide (0 client, 1 server) while its senders are backlogged; whatever
+	// still reaches the wire afterwards stays inside the envelope
+	CloseAtMS int `json:"close_at_ms,omitempty"`
+	CloseSide int `json:"close_side,omitempty"`
 }
 
 func logUniform(g *Gen, lo, hi float64) int64 {
@@ -49,6 +54,16 @@ func genC19(g *Gen) any {
 	}
 	sc.WriteSize = g.Pick(700, 3000, 16000, 40000)
 	sc.ZeroLatency = g.Bool(0.5)
+	if g.Bool(0.25) {
+		// many backlogged streams on a slow user, then the session is closed
+		sc.RxRate = logUniform(g, 16640, 200000)
+		sc.TxRate = logUniform(g, 16640, 200000)
+		sc.Streams[0] = g.Int(4, 14)
+		sc.UpBytes, sc.DownBytes = 400000, 400000
+		sc.WriteSize = g.Pick(3000, 16000, 40000)
+		sc.CloseAtMS = g.Pick(1, 500, 1500, 3000, g.Int(1, 5000))
+		sc.CloseSide = g.Int(0, 1)
+	}
 	return sc
 }
 
@@ -96,10 +111,18 @@ func runC19(c *Ctx, scAny any) {
 	upPer, downPer := sc.UpBytes/nstreams, sc.DownBytes/nstreams
 	var rx []rateEvent
 	pending := 0
+	closedWorld := -1 // index of the session the workload closed
+	// an error on a stream of the session that was closed on purpose is expected
+	fail := func(wi int, sig string, err error) {
+		if wi == closedWorld {
+			return
+		}
+		c.Fail("rate", sig, "%v", err)
+	}
 	start := c.W.Elapsed()
 	var lastUp, lastDown time.Duration
 	for wi, sw := range worlds {
-		sw := sw
+		wi, sw := wi, sw
 		simsync.Go("h:accept", func() {
 			for {
 				conn, err := sw.S.Accept()
@@ -109,7 +132,7 @@ func runC19(c *Ctx, scAny any) {
 				simsync.Go("h:srv", func() {
 					hdr := make([]byte, 1)
 					if _, err := io.ReadFull(conn, hdr); err != nil {
-						c.Fail("rate", "error:read", "%v", err)
+						fail(wi, "error:read", err)
 						return
 					}
 					simsync.Go("h:srv-w", func() {
@@ -118,7 +141,7 @@ func runC19(c *Ctx, scAny any) {
 						for off := 0; off < downPer; off += len(buf) {
 							k := min(len(buf), downPer-off)
 							if _, err := conn.Write(buf[:k]); err != nil {
-								c.Fail("rate", "error:write", "%v", err)
+								fail(wi, "error:write", err)
 								return
 							}
 						}
@@ -133,7 +156,7 @@ func runC19(c *Ctx, scAny any) {
 							lastUp = c.W.Elapsed()
 						}
 						if err != nil {
-							c.Fail("rate", "error:read", "%v", err)
+							fail(wi, "error:read", err)
 							return
 						}
 					}
@@ -146,11 +169,11 @@ func runC19(c *Ctx, scAny any) {
 			simsync.Go("h:cli", func() {
 				st, err := sw.C.OpenStream()
 				if err != nil {
-					c.Fail("rate", "error:open", "%v", err)
+					fail(wi, "error:open", err)
 					return
 				}
 				if _, err := st.Write([]byte{1}); err != nil {
-					c.Fail("rate", "error:write", "%v", err)
+					fail(wi, "error:write", err)
 					return
 				}
 				simsync.Go("h:cli-w", func() {
@@ -159,7 +182,7 @@ func runC19(c *Ctx, scAny any) {
 					for off := 0; off < upPer; off += len(buf) {
 						k := min(len(buf), upPer-off)
 						if _, err := st.Write(buf[:k]); err != nil {
-							c.Fail("rate", "error:write", "%v", err)
+							fail(wi, "error:write", err)
 							return
 						}
 					}
@@ -173,7 +196,7 @@ func runC19(c *Ctx, scAny any) {
 						lastDown = c.W.Elapsed()
 					}
 					if err != nil {
-						c.Fail("rate", "error:read", "%v", err)
+						fail(wi, "error:read", err)
 						return
 					}
 				}
@@ -181,9 +204,23 @@ func runC19(c *Ctx, scAny any) {
 			})
 		}
 	}
+	if sc.CloseAtMS > 0 {
+		simsync.Go("h:closer", func() {
+			Sleep(time.Duration(sc.CloseAtMS) * time.Millisecond)
+			closedWorld = 0
+			if sc.CloseSide == 0 {
+				worlds[0].C.Close()
+			} else {
+				worlds[0].S.Close()
+			}
+		})
+	}
 	end := c.Drive(func() bool { return pending == 0 })
 	if c.Failed() {
 		return
+	}
+	if closedWorld >= 0 && end == simsync.EndQuiescent {
+		end = simsync.EndDone // tasks of the closed session ended early; judge what reached the wire
 	}
 	if end == simsync.EndQuiescent && pending > 0 {
 		c.Fail("rate", "stuck", "traffic stuck at final quiescence\n%s", c.W.DumpTasks())
@@ -262,6 +299,10 @@ func runC19(c *Ctx, scAny any) {
 				}
 				c.Probe("lower_bound_checked")
 			}
+		}
+		if closedWorld >= 0 {
+			c.Probe("closed_while_backlogged")
+			return
 		}
 		check("down", downPer*nstreams, lastDown, sc.TxRate)
 		if !c.Failed() {
